@@ -1,5 +1,5 @@
 (* C03 -- Consumers see only committed messages: all of them, once, in order. *)
-From LB Require Import Base.Prelude Log.Model Log.Proofs Log.Refine Log.CommittedProofs Log.HwWait.
+From LB Require Import Base.Prelude Log.Model Log.Proofs Log.Refine Log.CommittedProofs Log.HwWait Log.HwWaitRo Log.HwWaitRoProofs.
 Open Scope Z_scope.
 
 (* Sequential semantics: a committed reader started at or below the HW returns exactly the
@@ -51,3 +51,60 @@ Theorem C03_refuted_without_recheck :
   h_hw s = 0 /\ map r_parked (h_readers s) = [true] /\ map r_next (h_readers s) = [0].
 Proof. exact without_recheck_wakeup_lost. Qed.
 Print Assumptions C03_refuted_without_recheck.
+
+(* ---- the read-only end of a log (Log.HwWaitRo: the wake-up LTS with SetReadonly and the three-way
+   decision of waitForHW; every label is one call into the real commit log and the two are compared
+   label by label on every run) ----
+   For every schedule of appends, SetReadonly(true/false) (flag store and notification as separate
+   steps), HW advances and reader steps: a reader is told "end of read-only log" only when it has
+   delivered every message the log held at that moment ... *)
+Theorem C03_readonly_end_only_after_everything_was_delivered : forall s sched r e, winv s ->
+  In r (w_readers (wrun wcode s sched)) -> n_ended r = Some e -> n_next r = e + 1.
+Proof. exact ended_delivered_all. Qed.
+Print Assumptions C03_readonly_end_only_after_everything_was_delivered.
+
+(* ... where e is what the step that ended the reader recorded: the newest offset of a log that was
+   read-only with its HW at that offset. *)
+Theorem C03_readonly_end_step : forall s lb j r r' e, winv s -> nth_error (w_readers s) j = Some r -> n_ended r = None ->
+  nth_error (w_readers (wstep wcode s lb)) j = Some r' -> n_ended r' = Some e ->
+  e = w_newest s /\ w_ro s = true /\ w_hw s = w_newest s /\ n_next r' = w_newest s + 1.
+Proof. exact end_step_sound. Qed.
+Print Assumptions C03_readonly_end_step.
+
+(* No reader stays parked on a finished read-only log: one that is parked there is about to be
+   notified, and the notification leaves nobody parked. *)
+Theorem C03_no_reader_parked_on_finished_log : forall s sched r, winv s -> In r (w_readers (wrun wcode s sched)) -> n_parked r = true ->
+  w_ro (wrun wcode s sched) = true -> w_hw (wrun wcode s sched) = w_newest (wrun wcode s sched) ->
+  w_pending (wrun wcode s sched) = true.
+Proof. exact parked_on_finished_log_is_notified. Qed.
+Print Assumptions C03_no_reader_parked_on_finished_log.
+
+Theorem C03_readonly_notification_wakes_all : forall s r, winv s -> w_ro s = true -> w_hw s = w_newest s ->
+  In r (w_readers (wstep wcode s WRoNotify)) -> n_parked r = false.
+Proof. exact notify_leaves_nobody_parked. Qed.
+Print Assumptions C03_readonly_notification_wakes_all.
+
+(* the earlier invariants hold of the extended system too, from the initial state of any number of readers *)
+Theorem C03_ro_never_above_hw : forall n sched r, In r (w_readers (wrun wcode (winit n) sched)) -> n_next r - 1 <= w_hw (wrun wcode (winit n) sched).
+Proof. intros n sched r. apply ro_never_above_hw. apply winit_inv. Qed.
+Print Assumptions C03_ro_never_above_hw.
+
+Theorem C03_ro_no_lost_wakeup : forall n sched r, In r (w_readers (wrun wcode (winit n) sched)) ->
+  n_next r <= w_hw (wrun wcode (winit n) sched) -> n_parked r = false.
+Proof. intros n sched r. apply ro_no_lost_wakeup. apply winit_inv. Qed.
+Print Assumptions C03_ro_no_lost_wakeup.
+
+(* Both decisions of waitForHW are needed, in the code's order: with "read-only and caught up" tested
+   first, or without "caught up", a reader is told "end" with messages undelivered. *)
+Theorem C03_refuted_readonly_check_first :
+  map (fun r => (n_next r, n_ended r)) (w_readers (wrun (mkWv true false true) (winit 1) [WAppend 1; WRoFlag true; WRoNotify; WSetHW 0; WWait 0%nat]))
+  = [(0, Some 0)].
+Proof. exact swapped_order_ends_early. Qed.
+Print Assumptions C03_refuted_readonly_check_first.
+
+Theorem C03_refuted_readonly_end_below_log_end :
+  map (fun r => (n_next r, n_ended r)) (w_readers (wrun (mkWv true true false) (winit 1)
+     [WAppend 2; WSetHW 0; WRoFlag true; WRoNotify; WSync 0%nat; WDeliver 0%nat; WWait 0%nat]))
+  = [(1, Some 1)].
+Proof. exact end_without_leo_ends_early. Qed.
+Print Assumptions C03_refuted_readonly_end_below_log_end.
